@@ -9,6 +9,7 @@ package main
 
 import (
 	"fmt"
+	"math/big"
 
 	"github.com/tuneinsight/lattigo/v6/core/rlwe"
 	"github.com/tuneinsight/lattigo/v6/ring"
@@ -120,7 +121,18 @@ func c04LazyWordTie(c *Ctx, ps *c04PS, cfg c04KeyCfg, evk *rlwe.EvaluationKey, c
 		F := (^uint64(0) / c04MaxU64(fam)) / 2
 		detail := ""
 		if maxDigit >= 6*p && p > F+1 {
-			detail = fmt.Sprintf("digit word %d >= 6p = %d and p > F+1 = %d", maxDigit, 6*p, F+1)
+			// general condition of gpLazySlot_exact_bound with Y = maxDigit + 1: (p-1) + F*(p + p*Y/2^64) < 2^64
+			Y := new(big.Int).SetUint64(maxDigit)
+			Y.Add(Y, big.NewInt(1))
+			pb := new(big.Int).SetUint64(p)
+			t := new(big.Int).Mul(pb, Y)
+			t.Rsh(t, 64)
+			t.Add(t, pb)
+			t.Mul(t, new(big.Int).SetUint64(F))
+			t.Add(t, pb)
+			if t.Cmp(new(big.Int).Lsh(big.NewInt(1), 64)) > 0 || F < 1 || 8*p > (1<<63) {
+				detail = fmt.Sprintf("digit word %d: none of the no-wrap hypotheses holds (6p = %d, F+1 = %d)", maxDigit, 6*p, F+1)
+			}
 		}
 		c.Probe("lazy_digit_range", fmt.Sprintf("p=%d isP=%v lp=%d w=%d", p, isP, lp, w), "C04-lazy-digit-range", detail)
 		if maxDigit >= 6*p {
